@@ -1,5 +1,6 @@
 \* Generator B: every two-lookup program with one rule per lookup from FeaSem!Reduced (15 rules),
 \* flags {none, IgnoreMarks} x {none, 0, IgnoreMarks}, 10 structure templates (FeaSem!Templates2).
+CONSTANTS Stride = 1 Offset = 0
 INIT InitB
 NEXT NextNone
 INVARIANT EmitCase
